@@ -9,7 +9,7 @@ CONSTANTS RefDays,        \* reference day ordinals for resolve
           DateRanges,     \* set of <<start ordinal, end ordinal>>
           TimeRanges,     \* set of <<start hour, end hour>>
           MonthDays,      \* set of <<month, day>>
-          Times,          \* set of <<hour, minute>>
+          Times,          \* set of <<hour, minute, second>>
           MaxCands, MaxDateC, MaxTimeC
 
 UnitSeconds(u, isTime) ==
@@ -70,11 +70,13 @@ VerdictResolve(c, obs) ==
   ELSE "ok"
 
 (* ------------------------------------------------------------------ evaluate *)
+(* shortest TIMEX text of a time of day <<hour, minute, second>> *)
+TimeText(t) == "T" \o Pad2(t[1]) \o (IF t[2] = 0 /\ t[3] = 0 THEN "" ELSE ":" \o Pad2(t[2])) \o (IF t[3] = 0 THEN "" ELSE ":" \o Pad2(t[3]))
 Cands ==
   { [k |-> "wd", text |-> "XXXX-WXX-" \o ToString(w), w |-> w] : w \in 1..7 }
   \cup { [k |-> "md", text |-> "XXXX-" \o Pad2(t[1]) \o "-" \o Pad2(t[2]), m |-> t[1], d |-> t[2]] : t \in MonthDays }
-  \cup { [k |-> "t", text |-> (IF t[2] = 0 THEN "T" \o Pad2(t[1]) ELSE "T" \o Pad2(t[1]) \o ":" \o Pad2(t[2])), secs |-> t[1] * 3600 + t[2] * 60] : t \in Times }
-  \cup { [k |-> "wdt", text |-> "XXXX-WXX-" \o ToString(t[1]) \o "T" \o Pad2(t[2][1]), w |-> t[1], secs |-> t[2][1] * 3600] : t \in {3, 7} \X {x \in Times : x[2] = 0} }
+  \cup { [k |-> "t", text |-> TimeText(t), secs |-> t[1] * 3600 + t[2] * 60 + t[3]] : t \in Times }
+  \cup { [k |-> "wdt", text |-> "XXXX-WXX-" \o ToString(t[1]) \o TimeText(t[2]), w |-> t[1], secs |-> t[2][1] * 3600 + t[2][2] * 60 + t[2][3]] : t \in {3, 7} \X {x \in Times : x[2] = 0} }
   \cup { [k |-> "dur", text |-> "P2D"], [k |-> "dur", text |-> "PT3H"] }
 
 DateRangeText(r) == "(" \o OrdStr(r[1]) \o "," \o OrdStr(r[2]) \o ",P" \o ToString(r[2] - r[1]) \o "D)"
